@@ -621,6 +621,7 @@ def check_scope(ctx, rep, scope):
     n += check_lookup_keys(ctx, rep, funcs)
     n += check_input_unmodified(ctx, rep, funcs)
     n += check_index_by_value(ctx, rep, funcs)
+    n += check_subsets_by_value(ctx, rep, funcs)
     n += check_memo_keys(ctx, rep, funcs)
     n += check_dedupe_keys(ctx, rep, funcs)
     return n
@@ -668,6 +669,56 @@ def check_index_by_value(ctx, rep, funcs, rule=RULE + '.index'):
                         continue
                     n += 1
                     rep.violates(rule, f, c, '{0}.index({1}) inside the loop over {0}: for an element that occurs twice in {0} this is the position of its FIRST occurrence both times, so the later positions are never visited (e.g. the second A in the right-hand side A S A)'.format(seq, var))
+    return n
+
+
+def check_subsets_by_value(ctx, rep, funcs, rule=RULE + '.index'):
+    """occurrences chosen by value: the sub-collections of the elements of a sequence x are enumerated
+    (itertools.combinations / permutations over elements drawn from x) and one of them then filters x itself with
+    `in` / `not in`.  Two equal elements of x cannot be told apart by such a filter: both stay or both go, so the
+    selections that treat the occurrences differently are never produced (e.g. dropping only one A of the right-hand side
+    A A).  Choosing positions (indices, or recursion on the tail) does not have this defect.  Pattern rule: no floor."""
+    from ..types import is_kind
+    n = 0
+    for f in funcs:
+        for lp in walk_no_nested(f.node):
+            gens = []
+            if isinstance(lp, ast.For):
+                gens.append((lp.target, lp.iter, lp))
+            if isinstance(lp, (ast.ListComp, ast.SetComp, ast.GeneratorExp, ast.DictComp)):
+                gens += [(g.target, g.iter, lp) for g in lp.generators]
+            for (tg, it, node) in gens:
+                if not (isinstance(tg, ast.Name) and isinstance(it, ast.Call) and u(it.func).split('.')[-1] in ('combinations', 'permutations', 'combinations_with_replacement') and it.args):
+                    continue
+                pool = it.args[0]
+                # the sequence the pool was drawn from:  pool = [s for s in x if ...]  /  x itself
+                src = None
+                pr = pool
+                if isinstance(pr, ast.Name):
+                    defs = [st.value for st in walk_no_nested(f.node) if isinstance(st, ast.Assign) and len(st.targets) == 1 and isinstance(st.targets[0], ast.Name) and st.targets[0].id == pr.id]
+                    if len(defs) == 1:
+                        pr = defs[0]
+                if isinstance(pr, (ast.ListComp, ast.GeneratorExp)) and len(pr.generators) == 1 and isinstance(pr.generators[0].iter, ast.Name) and u(pr.elt) == u(pr.generators[0].target):
+                    src = pr.generators[0].iter.id
+                elif isinstance(pr, ast.Name):
+                    src = pr.id
+                if src is None:
+                    continue
+                try:
+                    t = ctx.env(f).type_of(ast.Name(id=src, ctx=ast.Load()))
+                except Exception:
+                    t = None
+                if t is not None and is_kind(t, 'set', 'frozenset', 'dict'):
+                    continue
+                for c in ast.walk(node):
+                    if isinstance(c, (ast.ListComp, ast.GeneratorExp, ast.SetComp)) and len(c.generators) == 1 and isinstance(c.generators[0].iter, ast.Name) and c.generators[0].iter.id == src:
+                        g = c.generators[0]
+                        for cond in g.ifs:
+                            for x in ast.walk(cond):
+                                if isinstance(x, ast.Compare) and len(x.ops) == 1 and isinstance(x.ops[0], (ast.In, ast.NotIn)) and u(x.left) == u(g.target) and u(x.comparators[0]) == tg.id:
+                                    n += 1
+                                    rep.violates(rule, f, c, 'the sub-collections `{}` of the elements of `{}` are enumerated by value and then used to filter `{}` itself (`{}`): equal elements of the sequence are kept or dropped '
+                                                 'together, so the selections that treat two occurrences differently are never produced (e.g. only one A of the right-hand side A A)'.format(tg.id, src, src, u(x)))
     return n
 
 
